@@ -14,7 +14,8 @@ PROPS["C11"] = P(
     "plus log-uniform random key counts; debug builds skip key counts above 100 001. The unsharded logic between 100 001 and 800 000 keys (documented expansion above 1.135) has strata of its own. "
     "A failed or panicking build/constructor gives no verdict here (C07/C17/C01-C05 own that). "
     "distinct_nontrivial = number of distinct (structure variant, size/parameter stratum) cells in which at least one instance large enough for the factor to dominate the additive constant "
-    "(vectors above 2 words, rank/select above 1024 bits, Elias-Fano with n >= 10^4, any built function) was measured",
+    "(vectors above 2 words, rank/select above 1024 bits, Elias-Fano with n >= 10^4, any built function) was measured"
+    ' Sizes after rejected operations (rejected-ops); RankSmall built through the rank_small! macro; any size above the K01 ceiling is reported under its own operation. ',
     dict(builds=["DBG", "UBC"]),
     dict(builds=["DBG", "UBC"]),
     hang="inconclusive",
